@@ -437,7 +437,32 @@ func (g *G) genRep(p *Profile, idx int, approx time.Time, conditional bool) Rep 
 var hosts = []string{"a.test", "b.test"}
 var paths = []string{"/x", "/y"}
 
+// resources beyond the first four are near misses of http://a.test/x: they differ from it (and from one
+// another) in exactly one component, in ways a sloppy key function would confuse
+var nearMisses = []string{
+	"http://a.test/x?q=caf%C3%A9", "http://a.test/x?q=caf%E9", "http://a.test/x?q=caf\xc3\xa9",
+	"http://[::1]:8080/x", "http://[::1:8080]/x", "https://a.test/x", "http://a.test:8080/x",
+	"http://a.test/X", "http://a.test/x/", "http://a.test/x?q=1", "http://a.test/x?q=2", "http://a.test/%E9",
+	"http://a.test/%C3%A9", "http://a.test/x%2Fy", "http://a.test/x/y",
+}
+
 func (g *G) urlFor(res int, respell bool) string {
+	if res >= 4 {
+		u := nearMisses[(res-4)%len(nearMisses)]
+		if !respell {
+			return u
+		}
+		switch g.intn(4) {
+		case 0:
+			return strings.Replace(u, "http://a.test", "http://A.TEST", 1)
+		case 1:
+			return strings.Replace(strings.Replace(u, "%C3%A9", "%c3%a9", 1), "%E9", "%e9", 1)
+		case 2:
+			return strings.Replace(u, "http://a.test/", "http://a.test:80/", 1)
+		default:
+			return u + "#f"
+		}
+	}
 	host := hosts[res%len(hosts)]
 	path := paths[(res/len(hosts))%len(paths)]
 	if !respell {
@@ -577,10 +602,55 @@ func init() {
 		p.PSIE, p.PErrReply, p.PReqCC, p.PMustReval, p.PNoCache = 0.6, 0.5, 0.5, 0.2, 0.15
 		p.URLs, p.PUnsafe, p.PValidators, p.PLocation, p.PRange = 1, 0.02, 0.7, 0.0, 0.0
 	})
+	profiles["urls"] = derive("urls", func(p *Profile) {
+		p.NReq = [2]int{5, 10}
+		p.URLs, p.PSpelling, p.PVary, p.PUnsafe, p.PReqCC = 19, 0.5, 0.0, 0.0, 0.0
+		p.PNoCache, p.PMustReval, p.PSWR, p.PSIE, p.PErrReply, p.PHeuristic = 0, 0, 0, 0, 0, 0
+		p.PLocation, p.PConnHdr, p.PRange, p.PDate, p.PAge = 0, 0, 0, 0, 0
+		p.Statuses = []int{200}
+	})
+	profiles["repeat"] = derive("repeat", func(p *Profile) {
+		p.PVary, p.PUnsafe, p.PReqCC, p.URLs = 0.8, 0.02, 0.1, 1
+		p.PLocation, p.PConnHdr, p.PRange, p.PErrReply, p.PValidators, p.PSWR = 0, 0, 0, 0.03, 0.7, 0.3
+	})
 	profiles["oic"] = derive("oic", func(p *Profile) {
 		p.NReq = [2]int{3, 6}
 		p.PUnsafe, p.PReqCC, p.POnlyIfCached, p.PNoCache, p.PMustReval = 0.02, 0.8, 0.6, 0.25, 0.35
 		p.PSWR, p.PSIE, p.URLs, p.PVary = 0.3, 0.2, 1, 0.2
 		p.PLocation, p.PConnHdr, p.PRange = 0.0, 0.0, 0.0
 	})
+}
+
+// genRepeatCase: a long history over a small finite alphabet of requests and reply templates (C19).
+func (g *G) genRepeatCase(p *Profile, id string) *Case {
+	c := &Case{ID: id, Stream: "M", SWRTimeout: p.SWRTimeouts[g.intn(len(p.SWRTimeouts))]}
+	k := 2 + g.intn(3)
+	var alphabet []Req
+	for i := 0; i < k; i++ {
+		rq := Req{Method: "GET", URL: g.urlFor(0, false), Hdrs: g.selectingHeaders()}
+		if i > 0 && g.chance(0.15) {
+			rq.Method = "POST"
+		}
+		alphabet = append(alphabet, rq)
+	}
+	m := 1 + g.intn(3)
+	tseeds := make([]uint64, m)
+	for i := range tseeds {
+		tseeds[i] = g.r.Uint64()
+	}
+	n := 24 + g.intn(40)
+	approx := epoch
+	for i := 0; i < n; i++ {
+		rq := alphabet[g.intn(k)]
+		rq.Gap = g.pickD(time.Second, 5*time.Second, 61*time.Second, 500*time.Millisecond)
+		approx = approx.Add(rq.Gap)
+		c.Reqs = append(c.Reqs, rq)
+	}
+	for i := 0; i < n+6; i++ {
+		ts := tseeds[g.intn(m)]
+		t1 := newG(ts, 1)
+		t2 := newG(ts, 2)
+		c.Script = append(c.Script, ScriptEntry{Delay: 0, Plain: t1.genRep(p, i, epoch, false), Cond: t2.genRep(p, i, epoch, true)})
+	}
+	return c
 }
